@@ -92,10 +92,19 @@ def facts_dir(cfgset="default+uring", log=None):
     if cfgset not in CFGSETS:
         raise FactsError("unknown cfgset " + cfgset)
     os.makedirs(CACHE, exist_ok=True)
-    lock = open(os.path.join(CACHE, "lock"), "w")
-    fcntl.flock(lock, fcntl.LOCK_EX)
+    # one lock per analysed tree: the registered checks all analyse /repo and serialise on "lock"; the self-test may
+    # analyse scratch copies in parallel (AQV_REPO), each with its own lock and cargo target directory
+    suffix = "" if REPO == "/repo" else "-" + hashlib.sha256(REPO.encode()).hexdigest()[:8]
+    dl = open(os.path.join(CACHE, "lock-driver"), "w")
+    fcntl.flock(dl, fcntl.LOCK_EX)
     try:
         build_driver()
+    finally:
+        fcntl.flock(dl, fcntl.LOCK_UN)
+        dl.close()
+    lock = open(os.path.join(CACHE, "lock" + suffix), "w")
+    fcntl.flock(lock, fcntl.LOCK_EX)
+    try:
         h, nfiles = tree_hash()
         out = os.path.join(CACHE, "facts", h, cfgset)
         stamp = os.path.join(out, "COMPLETE")
@@ -108,7 +117,7 @@ def facts_dir(cfgset="default+uring", log=None):
         if os.path.isdir(out):
             shutil.rmtree(out)
         os.makedirs(out)
-        target = os.path.join(CACHE, "target", cfgset)
+        target = os.path.join(CACHE, "target", cfgset + suffix)
         os.makedirs(target, exist_ok=True)
         # cargo's freshness cache would skip the wrapper: forget the members
         fp = os.path.join(target, "debug", ".fingerprint")
